@@ -315,6 +315,26 @@ fn run_planned(prop: &'static str, args: &Args, ev: &mut Ev, planned: Vec<Planne
             }
         }
     }
+    if prop == "C01" {
+        let (bad, _) = pmap(&planned, args.threads, None, |p| -> Option<String> {
+            if p.case.family == "body-batch" || wmodel::validate214(&p.case.wasm, wmodel::FeatureSet::DEFAULT).is_err() {
+                return None;
+            }
+            file_output_differs(&p.case.wasm, do_gc, &args.verif)
+        });
+        let mut n = 0u64;
+        for (p, b) in planned.iter().zip(bad.into_iter()) {
+            if p.case.family != "body-batch" {
+                n += 1;
+            }
+            if let Some(Some(d)) = b {
+                let mut c = p.case.clone();
+                c.cfg = json!({"via_file": true, "gc": do_gc});
+                viol.push(Violation::new(prop, "behaviour-differs:module-written-to-file-is-not-the-emitted-module", d, &c));
+            }
+        }
+        ev.extra.insert("file_entry_point".into(), json!({"modules_written_over_an_older_longer_build": n}));
+    }
     let (jobs_opt, _) = pmap(&planned, args.threads, None, |p| job_for(p, do_gc, full, 0));
     let mut jobs = vec![];
     let mut owner = vec![];
@@ -403,6 +423,40 @@ fn run_planned(prop: &'static str, args: &Args, ev: &mut Ev, planned: Vec<Planne
     viol
 }
 
+/// the module as a user gets it on disk: `emit_wasm_file` onto a path that already holds an older,
+/// longer build. What is instantiated later is the file, so it has to be the module `emit_wasm` returns.
+fn file_output_differs(wasm: &[u8], do_gc: bool, verif: &std::path::Path) -> Option<String> {
+    let mut m = crate::pipe::parse(wasm, &Cfg::default()).ok()?;
+    if do_gc {
+        crate::pipe::gc(&mut m).ok()?;
+    }
+    let dir = verif.join("work").join("bisim");
+    let _ = std::fs::create_dir_all(&dir);
+    static SERIAL: std::sync::atomic::AtomicUsize = std::sync::atomic::AtomicUsize::new(0);
+    let path = dir.join(format!("file-{}-{}.wasm", std::process::id(), SERIAL.fetch_add(1, std::sync::atomic::Ordering::SeqCst)));
+    // the older build: the input itself followed by a custom section that makes it longer than any output
+    let mut old = wasm.to_vec();
+    old.push(0);
+    old.extend_from_slice(&[0x90, 0x4e]); // 10 000 bytes
+    old.push(3);
+    old.extend_from_slice(b"old");
+    old.extend(std::iter::repeat(0x5a).take(10_000 - 4));
+    std::fs::write(&path, &old).ok()?;
+    let r = std::panic::catch_unwind(std::panic::AssertUnwindSafe(|| m.emit_wasm_file(&path).map(|_| m.emit_wasm())));
+    let on_disk = std::fs::read(&path).unwrap_or_default();
+    let _ = std::fs::remove_file(&path);
+    match r {
+        Ok(Ok(mem)) if mem != on_disk => Some(format!(
+            "emit_wasm_file onto a path holding an older build of {} bytes left {} bytes on disk; the module is {} bytes ({})",
+            old.len(),
+            on_disk.len(),
+            mem.len(),
+            if wmodel::validate214(&on_disk, wmodel::FeatureSet::DEFAULT).is_ok() { "the file still validates: another module" } else { "the file does not validate" }
+        )),
+        _ => None,
+    }
+}
+
 pub fn recheck(prop: &'static str, c: &Case) -> Vec<Violation> {
     let args = Args {
         id: prop.to_string(),
@@ -415,6 +469,12 @@ pub fn recheck(prop: &'static str, c: &Case) -> Vec<Violation> {
         budget_s: 60.0,
     };
     let do_gc = c.cfg.get("gc").and_then(|x| x.as_bool()).unwrap_or(false);
+    if c.cfg.get("via_file").is_some() {
+        return match file_output_differs(&c.wasm, do_gc, &args.verif) {
+            Some(d) => vec![Violation::new(prop, "behaviour-differs:module-written-to-file-is-not-the-emitted-module", d, c)],
+            None => vec![],
+        };
+    }
     if c.cfg.get("output_invalid").is_some() {
         if let Ok(out) = roundtrip(&c.wasm, &Cfg::default(), do_gc) {
             if let Err(e) = wmodel::validate214(&out, wmodel::FeatureSet::DEFAULT) {
